@@ -5,11 +5,11 @@ CONSTANTS
   SubFiles = {"b"}
   MaxDepth = 8
   FileSeq <- Seq3
-  MaxStmts = 2
+  MaxStmts = 1
   GenKinds = {"use", "forward", "import", "loadcss"}
-  GenSpellings = {"plain"}
+  GenSpellings = {"plain", "ext"}
   DevChoices <- DevIdeal
-  MaxFaultAt = 6
+  MaxFaultAt = 3
 INVARIANTS UrlsResolve FaultReported NoErrWithoutFault LockDiscipline DepthBound LoopOnlyOnCycle NeverOverflow InitOnce OkOnlyAcyclic Emit
 PROPERTY Termination
 CHECK_DEADLOCK FALSE
